@@ -393,3 +393,54 @@ def h_jsx_allowlist(k: int) -> bool:
         return False
     Open = jsx_tag_create("Open")
     return list(Open(anything_=1, other_thing=2).attrs) == ["anything", "other-thing"]
+
+
+N_PLACE = 6
+
+
+def _place(kids: list, kw: dict, where: int, d, tag: str) -> None:
+    if where == 0:
+        kids.append(d)
+    elif where == 1:
+        kids.append(Tag("div", "n" + tag, Tag("i", d)))
+    elif where == 2:
+        kids.append(JSXTag("Inner" + tag, d, "z"))
+    elif where == 3:
+        kw["icon" + tag] = Tag("i", d, "x")
+    elif where == 4:
+        kw["slot" + tag] = JSXTag("Slot" + tag, "y", d)
+    else:
+        kids.append(TFn(lambda: Tag("span", "e" + tag, d, _add_ws=False)))
+
+
+def _same_name_body(w0: int, w1: int, v: int) -> bool:
+    """metadata nodes are carried one by one: two dependencies that share a name but differ (version, or content at equal
+    version), or are equal copies, are all in the script element - choosing among them is render-time resolution (C10)"""
+    first = HTMLDependency("widgetlib", "1.0.0", head="<!--w1-->")
+    second = [HTMLDependency("widgetlib", "2.1.0", head="<!--w2-->"), HTMLDependency("widgetlib", "0.9", head="<!--w0-->"),
+              HTMLDependency("widgetlib", "1.0.0", head="<!--other content-->"), HTMLDependency("widgetlib", "1.0.0", head="<!--w1-->")][v]
+    kids: list = []
+    kw: dict = {}
+    _place(kids, kw, w0, first, "A")
+    _place(kids, kw, w1, second, "B")
+    comp = JSXTag("Foo", *kids, **kw)
+    r = comp.tagify()
+    if not (isinstance(r, Tag) and r.name == "script"):
+        return False
+    got = [(d.name, str(d.version), str(d.head)) for d in r.get_dependencies(dedup=False)]
+    want = [(d.name, str(d.version), str(d.head)) for d in (first, second)]
+    if [g[0] for g in got[:2]] != ["react", "react-dom"] or sorted(got[2:]) != sorted(want):
+        return False
+    # the document then resolves to the highest version (earliest on ties), whatever order the walk found them in
+    names = [(d.name, str(d.version)) for d in Tag("div", comp).render()["dependencies"]]
+    best = ("widgetlib", "2.1.0") if v == 0 else ("widgetlib", "1.0.0")
+    return names.count(best) == 1 and len([n for n in names if n[0] == "widgetlib"]) == 1
+
+
+@harness("C20", pre=lambda B, w0, w1, v: 0 <= w0 < N_PLACE and 0 <= w1 < N_PLACE and 0 <= v <= 3, shard={"w0": range(N_PLACE)},
+         sel=["w0, w1: where two same-named dependencies sit (child, nested tag, nested component, tag-valued prop, component-valued prop, expansion of a tagifiable child)",
+              "v: the second is a higher version / a lower version / equal version with different content / an equal copy"],
+         targets=["htmltools._jsx.JSXTag.tagify"],
+         outside="more than two same-named dependencies")
+def h_jsx_same_name(w0: int, w1: int, v: int) -> bool:
+    return concrete(_same_name_body, conc(w0, 0, N_PLACE - 1), conc(w1, 0, N_PLACE - 1), conc(v, 0, 3))
